@@ -54,6 +54,8 @@ ASNS = [1, 64512, 65000, 65535, 23456, 65536, 70000, 4200000000, 4294967295]
 ADDPATH_MODE = {0: 'disable', 1: 'receive', 2: 'send', 3: 'send/receive'}
 # codes exabgp gives no meaning to
 UNKNOWN_CODES = [0x07, 0x08, 0x0A, 0x42, 0x47, 0x48, 0x4A, 0x81, 0x83, 0xC8, 0xEE]
+# pre-standard (private use) codes that exabgp decodes with the class of a standard capability: they negotiate nothing
+PRESTANDARD_CODES = [0x80, 0x83]
 
 
 @st.composite
@@ -126,6 +128,8 @@ def theirs(draw, our):
         caps.append(['hostname', draw(st.text(max_size=20)).encode('utf-8').hex(), draw(st.text(max_size=20)).encode('utf-8').hex()])
     for _ in range(draw(st.integers(0, 3))):
         caps.append(['unknown', draw(st.sampled_from(UNKNOWN_CODES)), draw(st.binary(max_size=60)).hex()])
+    if draw(st.integers(0, 3)) == 0:
+        caps.append(['unknown', draw(st.sampled_from(PRESTANDARD_CODES)), ''])
     if draw(st.integers(0, 9)) == 0:
         # push the optional parameters past 255 bytes
         for _ in range(draw(st.integers(2, 5))):
@@ -150,7 +154,12 @@ def theirs(draw, our):
 @st.composite
 def cases(draw):
     our = draw(ours())
-    return {'ours': our, 'theirs': draw(theirs(our))}
+    case = {'ours': our, 'theirs': draw(theirs(our))}
+    if draw(st.integers(0, 2)) == 0:
+        # another session of the same process received this OPEN before ours is built (daemon with several neighbors,
+        # or a reconnection): what we advertise and negotiate must not depend on it
+        case['earlier'] = draw(theirs(our))
+    return case
 
 
 def cap_bytes(c: list) -> bytes:
@@ -321,6 +330,19 @@ def expected_refusal(o: dict, p: dict, sem_ok: bool) -> set | None:
     return None
 
 
+_BASELINE_OPEN = build.open_body(
+    4, 65000, 90, 0x0A000002, [(2, build.cap_mp(1, 1) + build.cap_refresh() + build.cap_erefresh() + build.capability(0x44, b''))], False
+)
+
+
+def _decode_quietly(neighbor, body: bytes) -> None:
+    """an OPEN of another session: only its effect on the process matters here, whatever it yields is judged elsewhere"""
+    try:
+        exa.Message.unpack(1, body, exa.Negotiated.make_negotiated(neighbor, exa.Direction.IN))
+    except Exception:  # noqa: BLE001
+        pass
+
+
 def check(case: dict) -> dict:
     o, p = case['ours'], case['theirs']
     text = config_text(o)
@@ -330,6 +352,13 @@ def check(case: dict) -> dict:
         raise Violation('config-refused', f'{exc} for {text}') from None
 
     classes = []
+    # every case starts from the same process state: an OPEN carrying the standard codes was the last one decoded
+    _decode_quietly(neighbor, _BASELINE_OPEN)
+    if case.get('earlier'):
+        _decode_quietly(neighbor, peer_open_bytes(case['earlier'], rid_int(o['router_id'])))
+        classes.append('earlier-open-decoded')
+        if any(c[0] == 'unknown' and c[1] in PRESTANDARD_CODES for c in case['earlier']['caps']):
+            classes.append('earlier-open-decoded:pre-standard-code')
     # ---- (1) what we advertise, and round trip
     sent = guard('our-open', exa.our_open, neighbor)
     wire = bytes(guard('our-open-pack', sent.pack_message, exa.Negotiated.UNSET))
